@@ -7,4 +7,10 @@
 EXTENDS TaskRemote
 CONSTANT Site
 NeverAt == \A t \in Th : pc[t] # Site
+\* pattern "wake, poll, wake" (Setup = "cold": the task is only ever made runnable by remote wakes): the first wake
+\* has been drained and polled by a complete tick, then a second remote wake has completed and sits in the sync
+\* queue. Its start_scheduling necessarily comes after the unschedule / poll of the first tick - the classical
+\* lost-wake-up schedule. The replay then lets the home thread tick once more and requires a poll.
+NeverWakeAfterPoll == ~(/\ n.ticks = 1 /\ pc["H"] = "idle" /\ g.polls = 2 /\ syncq = 1
+                        /\ \A t \in Wk : pc[t] = "idle")
 =============================================================================
